@@ -90,6 +90,8 @@ def proj(o, G):
         return ["exc", exc_id(type(o), G), []]
     if isinstance(o, G["CM"]):
         return ["cm", o.k, []]
+    if "Box" in G and isinstance(o, G["Box"]):
+        return ["box", o.s, []]
     return ["other", 0, []]
 
 
@@ -254,6 +256,23 @@ def make_globals(script, fault, supp, cmbase, log, limit=400):
     counts = {}
     import builtins
 
+    class Box:
+        """mutable truthiness: true while site s has been called an even number of times"""
+        def __init__(self, s):
+            self.s = s
+
+        def __bool__(self):
+            return counts.get(self.s, 0) % 2 == 0
+    boxes = {}
+
+    def realize(v):
+        if v[0] == "box":
+            return boxes.setdefault(v[1], Box(v[1]))
+        if v[0] in ("list", "tuple"):
+            xs = [realize(x) for x in v[2]]
+            return xs if v[0] == "list" else tuple(xs)
+        return topy(v)
+
     def hit(k, given=None, has_given=False):
         if len(log) > limit:
             raise Runaway()
@@ -269,7 +288,7 @@ def make_globals(script, fault, supp, cmbase, log, limit=400):
             v = given
         else:
             sc = script.get(k, [V_NONE])
-            v = topy(sc[i - 1] if i <= len(sc) else sc[-1])
+            v = realize(sc[i - 1] if i <= len(sc) else sc[-1])
         log.append([k, proj(v, G)])
         return v
 
@@ -290,7 +309,7 @@ def make_globals(script, fault, supp, cmbase, log, limit=400):
     def cm(k):
         return CM(k)
 
-    G.update(e=e, cm=cm, CM=CM, E1=E1, E2=E2, E3=E3, __name__="hyverif_prog")
+    G.update(e=e, cm=cm, CM=CM, Box=Box, E1=E1, E2=E2, E3=E3, __name__="hyverif_prog")
     return G
 
 
